@@ -139,6 +139,7 @@ type rewriter struct {
 	genRecv map[*ast.CallExpr]bool
 	genSend map[*ast.ExprStmt]bool
 	labeled map[ast.Stmt]*ast.LabeledStmt
+	goOwner map[*ast.GoStmt]string
 }
 
 func (r *rewriter) unsup(n ast.Node, format string, a ...interface{}) {
@@ -244,6 +245,18 @@ func (r *rewriter) prepass() {
 	r.genRecv = map[*ast.CallExpr]bool{}
 	r.genSend = map[*ast.ExprStmt]bool{}
 	r.labeled = map[ast.Stmt]*ast.LabeledStmt{}
+	r.goOwner = map[*ast.GoStmt]string{}
+	for _, d := range r.file.Decls {
+		if fd, ok := d.(*ast.FuncDecl); ok && fd.Body != nil {
+			name := fd.Name.Name
+			ast.Inspect(fd.Body, func(n ast.Node) bool {
+				if g, ok := n.(*ast.GoStmt); ok {
+					r.goOwner[g] = name
+				}
+				return true
+			})
+		}
+	}
 
 	for _, imp := range r.file.Imports {
 		p, _ := strconv.Unquote(imp.Path.Value)
@@ -513,9 +526,9 @@ func (r *rewriter) rewriteGo(n *ast.GoStmt) ast.Stmt {
 	call := n.Call
 	name := exprString(call.Fun)
 	if _, ok := call.Fun.(*ast.FuncLit); ok {
-		name = "func"
+		name = r.goOwner[n] + ".func"
 	}
-	if i := strings.LastIndex(name, "."); i >= 0 {
+	if i := strings.LastIndex(name, "."); i >= 0 && !strings.HasSuffix(name, ".func") {
 		name = name[i+1:]
 	}
 	nameLit := &ast.BasicLit{Kind: token.STRING, Value: strconv.Quote(name)}
